@@ -21,6 +21,37 @@ FN_STEP = "pydrex.minerals.Mineral.update_orientations.<perform_step>"
 G = LA.G
 
 
+def block(out, k):
+    """k-th block (F | orientations | fractions) of a right-hand side / state vector, Packed or YVec."""
+    if isinstance(out, LA.YVec):
+        return (out.F9, out.O, out.f)[k]
+    if isinstance(out, LA.Packed):
+        return out.block(k)
+    raise E.Unsupported(f"right-hand side of type {type(out).__name__}")
+
+
+def guarded(f):
+    """A facet group that cannot interpret what the (changed) code does is *undecided*, never a checker failure."""
+    import functools
+
+    @functools.wraps(f)
+    def w(run, *a, **k):
+        try:
+            return f(run, *a, **k)
+        except E.UNSUPPORTED_EXC as e:
+            run.undecided(f"{f.__name__}", FN, f"unsupported construct: {e}")
+        except (AttributeError, TypeError, IndexError, KeyError, ValueError) as e:
+            import traceback
+
+            run.undecided(f"{f.__name__}", FN, f"harness could not interpret the code's behaviour: {type(e).__name__}: {e} @ {traceback.format_exc().splitlines()[-3].strip()[:120]}")
+        finally:
+            E.Ctx.cur = None
+            LA.Sigma.cur = None
+            LA.LoopRule.cur = None
+
+    return w
+
+
 def consts_of(t, acc=None, seen=None):
     if acc is None:
         acc, seen = set(), set()
@@ -57,8 +88,14 @@ def explore(run, name, **kw):
         e = bad[0].exc
         run.undecided(name, FN, f"harness-level exception {type(e).__name__}: {str(e)[:200]}")
         return h, None
+    for di, d in enumerate(getattr(ex, "dead", [])[:4]):
+        # a path that became infeasible right after an assumed safety obligation: that obligation decides
+        for k, o in enumerate(d.oblig[-2:]):
+            run.prove(f"{name}/dead-path{di}/safety.{o.name}#{k}", FN, list(ex.ctx.hyps) + list(o.pc) + list(d.lazy), o.goal, structural=True, kind="safety",
+                      detail=f"{o.meta.get('what', o.name)}: {E.brief(o.goal, 160)}")
     if not ex.paths:
-        run.checker_failures.append(f"{name}: no feasible path")
+        if not getattr(ex, "dead", []):
+            run.checker_failures.append(f"{name}: no feasible path")
         return h, None
     return h, ex
 
@@ -68,6 +105,7 @@ def path_hyps(ex, p):
 
 
 # ----------------------------------------------------------------------------- C06
+@guarded
 def c06_facets(run, configs=(dict(phase=0, fabric=0, regime=4), dict(phase=1, fabric=5, regime=6, assemblage=(1,)), dict(phase=0, fabric=2, regime=4, assemblage=(1, 0), own_index=1))):
     fblocks = []
     for cfg in configs:
@@ -92,7 +130,7 @@ def c06_facets(run, configs=(dict(phase=0, fabric=0, regime=4), dict(phase=1, fa
                     run.prove(f"{t}/rhs{k}/returns", FN_RHS, H, z3.BoolVal(False), structural=True, detail=f"right-hand side raised/returned None: {exc}")
                     continue
                 Fin = yin.F9.reshape(3, 3) if isinstance(yin, LA.YVec) else yin[:9].reshape(3, 3)
-                blk = out.block(0) if isinstance(out, LA.Packed) else out[:9]
+                blk = block(out, 0)
                 want = S._matmul(h.Lm, Fin).flatten()
                 prove_entries(run, f"{t}/rhs{k}/F-block==(L@F).flatten()", FN_RHS, H, blk, want, replay=_rp_fblock(h, Fin, cfg))
                 names = consts_arr(blk)
@@ -121,6 +159,7 @@ def c06_facets(run, configs=(dict(phase=0, fabric=0, regime=4), dict(phase=1, fa
         run.exact("C06/F-block identical for every phase, fabric, regime and assemblage", FN_RHS, len(set(fblocks)) == 1, f"{len(set(fblocks))} distinct F-block expressions over {len(configs)} configurations")
 
 
+@guarded
 def update_all_facets(run):
     """update_all hands the same starting F to every mineral and returns the last result."""
     M = real_module("pydrex.minerals")
@@ -154,6 +193,7 @@ def update_all_facets(run):
 
 
 # ----------------------------------------------------------------------------- C08
+@guarded
 def c08_facets(run):
     for assemblage in ((0,), (1,), (0, 1), (1, 0)):
         for phase in assemblage:
@@ -174,6 +214,7 @@ def c08_facets(run):
                 run.exact(f"{tag}/path{pi}/solver gets the mineral's own phase, fabric and the unscaled mobility", FN_RHS, okp, "derivatives(phase=self.phase, fabric=self.fabric, gbm_mobility=params[...])")
 
 
+@guarded
 def hidden_state_scan(run, modules=("pydrex.minerals", "pydrex.core", "pydrex.utils")):
     """No module-level mutable state is written by the update cone: AST scan for global/nonlocal declarations and
     stores to module attributes / module-level containers inside functions."""
@@ -212,6 +253,7 @@ def hidden_state_scan(run, modules=("pydrex.minerals", "pydrex.core", "pydrex.ut
 
 
 # ----------------------------------------------------------------------------- C05
+@guarded
 def c05_facets(run):
     kk = sym("kscale")
     for regime in (4, 6):
@@ -265,8 +307,8 @@ def c05_facets(run):
                     run.prove(f"{t}/rhs{k}/returns", FN_RHS, H, z3.BoolVal(False), structural=True, detail="right-hand side failed")
                     continue
                 d1, d2 = t1_.deriv[k], t2_.deriv[k]
-                b1 = [o1.block(i) for i in range(3)]
-                b2 = [o2.block(i) for i in range(3)]
+                b1 = [block(o1, i) for i in range(3)]
+                b2 = [block(o2, i) for i in range(3)]
                 goals = [E.eq_cleared(R2(S.zz(b)), kk.z * S.zz(a)) for a, b in zip(np.asarray(b1[0], dtype=object).flat, np.asarray(b2[0], dtype=object).flat)]
                 run.prove(f"{t}/rhs{k}/dF block homogeneous of degree 1", FN_RHS, H, z3.And(*goals), structural=True)
                 same = all(_same_val(d1[key], d2[key]) for key in d1 if key not in ("strain_rate", "velocity_gradient", "deformation_gradient_spin", "orientations", "fractions"))
@@ -412,3 +454,152 @@ def nat_fblock(L, F, phase, fabric, regime, assemblage):
     out = cap["fun"](0.3, cap["y0"].copy())
     got, want = np.asarray(out[:9]), (L @ F).ravel()
     return dict(ok=bool(np.allclose(got, want, rtol=1e-10, atol=1e-12 * max(1.0, np.abs(want).max()))), got=got.tolist(), want=want.tolist())
+
+
+# ----------------------------------------------------------------------------- C09 glue / C01 frame / C07 null forcing and failure frame
+@guarded
+def c09_glue(run):
+    from contracts import gbslib as GL
+
+    h, ex = explore(run, "C09/glue", assemblage=(0,))
+    if ex is None:
+        return
+    for pi, p in enumerate(ex.paths):
+        tr = p.value
+        t = f"C09/glue/path{pi}"
+        if tr.exc is not None:
+            run.prove(f"{t}/no-exception", FN, path_hyps(ex, p), z3.BoolVal(False), structural=True, detail=f"raised {type(tr.exc).__name__}: {tr.exc}")
+            continue
+        ok_n = len(tr.gbs) == tr.steps
+        run.exact(f"{t}/apply_gbs is applied exactly once per solver step", FN_STEP, ok_n, f"{len(tr.gbs)} calls for {tr.steps} steps")
+        for k, (args, res, passed) in enumerate(tr.gbs):
+            o_in, f_in, chi, prev, ng = args
+            okp = prev is tr.snap0[0] and tr.snap0[0].writes == tr.snap0[2]
+            run.exact(f"{t}/step{k}/reference orientations are the snapshot at the start of the update", FN_STEP, okp, "orientations_prev is self.orientations[-1], unchanged during the update")
+            okc = isinstance(chi, Sym) and z3.eq(chi.z, h.params["gbs_threshold"].z) and isinstance(ng, SymInt) and z3.eq(ng.z, h.n.z)
+            run.exact(f"{t}/step{k}/threshold and grain count passed on unchanged", FN_STEP, okc, "params['gbs_threshold'], self.n_grains")
+            yk = tr.y_after_steps[k] if k < len(tr.y_after_steps) else None
+            src = [e for e in tr.extract if e[2][1] is passed[0] and e[2][2] is passed[1]]
+            oks = len(src) == 1 and src[0][0] is yk
+            run.exact(f"{t}/step{k}/sliding acts on extract_vars(solver.y) of this step", FN_STEP, oks, "orientations, fractions come from the state the solver just produced")
+            okw = isinstance(yk, LA.YVec) and yk.O is res[0] and yk.f is res[1] and yk.writes == ["9:"]
+            run.exact(f"{t}/step{k}/result is written back into solver.y[9:]", FN_STEP, okw, "solver.y[9:] = hstack((orientations.flatten(), fractions))")
+        # stored snapshot == last apply_gbs output (by the contracts of extract_vars and apply_gbs)
+        m = tr.mineral
+        if len(m.orientations) != 2 or len(m.fractions) != 2 or not tr.gbs:
+            run.exact(f"{t}/one snapshot stored", FN, False, f"{len(m.orientations)} / {len(m.fractions)} snapshots")
+            continue
+        So, Sf = m.orientations[-1], m.fractions[-1]
+        go, gf = tr.gbs[-1][1]
+        sums = list(tr.sums)
+        if len(sums) < 3:
+            run.undecided(f"{t}/stored==gbs", FN, f"unexpected sum symbols {sums}")
+            continue
+        Sa, Sb, Sc = (z3.Real(nm) for nm in sums[-3:])
+        chi = h.params["gbs_threshold"].z
+        H = path_hyps(ex, p) + [G >= 0, G < h.n.z]
+        # callee contract facts, instantiated at this call chain (each proved for all n in gbslib)
+        yfG = S.zz(GL._at(tr.y_after_steps[-1].f if False else LA.larr(f"yf{tr.steps}", h.n, ()), G))
+        facts = [Sa > 0,                       # A-LSODA: positive fraction mass after a step
+                 Sb >= 1, Sb <= 1 + chi,        # apply_gbs: S >= 1, S <= 1 + chi (MONO from sum(extract) == 1)
+                 Sc == 1]                       # extract_vars CONG + apply_gbs sum1: max(gf,0) == gf pointwise and SUM gf == 1
+        gfG = S.zz(GL._at(gf, G))
+        run.prove(f"{t}/CONG side condition: apply_gbs output fraction >= 0", FN, H + facts, E.clear_formula(gfG >= 0), structural=True)
+        # well-formed start snapshot: entries in [-1, 1]
+        O0G = GL._at(tr.snap0[0], G)
+        wf = [z3.And(S.zz(v) >= -1, S.zz(v) <= 1) for v in np.asarray(O0G, dtype=object).flat]
+        goals = [S.zz(a) == S.zz(b) for a, b in zip(np.asarray(GL._at(So, G), dtype=object).flat, np.asarray(GL._at(go, G), dtype=object).flat)]
+        run.prove(f"{t}/stored orientations == last apply_gbs output", FN, H + facts + wf, z3.And(*goals), structural=True)
+        run.prove(f"{t}/stored fractions == last apply_gbs output", FN, H + facts, E.clear_formula(S.zz(GL._at(Sf, G)) == gfG), structural=True)
+
+
+@guarded
+def c01_frame(run):
+    """Append-only history: exactly one append per list, at the end, of fresh arrays; earlier snapshots untouched."""
+    for kw, label in ((dict(assemblage=(0,)), "normal"), (dict(assemblage=(0,), lsoda_fail=True), "solver-failure"),
+                      (dict(assemblage=(0,), derivatives_raises=ValueError("stub: unsupported regime")), "solver-raises")):
+        h = UL.Harness(**kw)
+        ex = h.explore()
+        run.paths += len(ex.paths)
+        if not ex.complete or ex.unsupported or any(p.exc is not None for p in ex.paths) or not ex.paths:
+            run.undecided(f"C01/frame[{label}]", FN, "symbolic run incomplete: " + "; ".join(ex.unsupported[:2]) + "".join(str(p.exc)[:80] for p in ex.paths if p.exc is not None))
+            continue
+        for pi, p in enumerate(ex.paths):
+            tr = p.value
+            t = f"C01/frame[{label}]/path{pi}"
+            m = tr.mineral
+            log = [(a, b) for a, b, *_ in tr.mut.log]
+            untouched = m.orientations[0] is tr.snap0[0] and m.fractions[0] is tr.snap0[1] and tr.snap0[0].writes == tr.snap0[2] and tr.snap0[1].writes == tr.snap0[3]
+            run.exact(f"{t}/earlier snapshots are never written", FN, untouched, "the start snapshot is the same object with no element writes")
+            if label == "normal":
+                ok = tr.exc is None and log == [("orientations", "append"), ("fractions", "append")] and len(m.orientations) == 2 and len(m.fractions) == 2
+                run.exact(f"{t}/exactly one snapshot appended to each list, nothing else mutated", FN, ok, f"mutation log {log}, exception {tr.exc}")
+                if ok:
+                    yl = tr.y_after_steps[-1]
+                    fresh = all(x is not y for x in (m.orientations[-1], m.fractions[-1]) for y in (tr.snap0[0], tr.snap0[1], yl.O, yl.f))
+                    run.exact(f"{t}/appended arrays are fresh (no alias of an earlier snapshot or of the solver state)", FN, fresh, "results of extract_vars's clip() calls")
+                    after_steps = all(e[1] == "append" for e in tr.mut.log)
+                    run.exact(f"{t}/the append happens after the last solver step", FN, after_steps and tr.steps >= 1, f"{tr.steps} steps before the append")
+            else:
+                exc_ok = isinstance(tr.exc, (h.err.IterationError, ValueError))
+                run.exact(f"{t}/failed update raises and leaves the stored history untouched", FN, exc_ok and log == [] and len(m.orientations) == 1 and len(m.fractions) == 1,
+                          f"exception {type(tr.exc).__name__ if tr.exc else None}, mutation log {log}")
+            before = tr.attr_before
+            attrs = {k for k in m.__dict__ if k not in before or m.__dict__[k] is not before[k]}
+            run.exact(f"{t}/no attribute of the mineral is rebound (history lists are mutated in place only)", FN, attrs <= {"regime"}, f"attributes rebound: {sorted(attrs)}")
+
+
+@guarded
+def c07_null(run):
+    """Null forcing: zero velocity gradient, rigid rotation, viscosity-bound regimes -> zero texture derivatives, dF = L.F."""
+    cases = [("zero-L/regime4", dict(L_kind="zero", regime=4)), ("zero-L/regime6", dict(L_kind="zero", regime=6)),
+             ("rigid-rotation/regime4", dict(L_kind="skew", regime=4)), ("min_viscosity", dict(L_kind="sym", regime=0)), ("max_viscosity", dict(L_kind="sym", regime=7))]
+    for label, kw in cases:
+        h, ex = explore(run, f"C07/{label}", assemblage=(0,), real_derivatives=True, steps_choices=(1,), **kw)
+        if ex is None:
+            continue
+        for pi, p in enumerate(ex.paths):
+            tr = p.value
+            t = f"C07/{label}/path{pi}"
+            H = path_hyps(ex, p) + list(p.lazy) + [G >= 0, G < h.n.z]
+            if tr.exc is not None:
+                run.prove(f"{t}/does not raise", FN, H, z3.BoolVal(False), structural=True, detail=f"raised {type(tr.exc).__name__}: {tr.exc}")
+                continue
+            for k, (tk, yin, out, exc) in enumerate(tr.rhs):
+                if out is None:
+                    run.prove(f"{t}/rhs{k}/returns", FN_RHS, H, z3.BoolVal(False), structural=True, detail=f"right-hand side failed: {exc}")
+                    continue
+                for bi, nm in ((1, "orientation"), (2, "fraction")):
+                    blk = block(out, bi)
+                    with S.quiet():
+                        vals = blk.fn(G)
+                    goals = [E.clear_formula(S.zz(v) == 0) for v in np.asarray(vals, dtype=object).flat]
+                    run.prove(f"{t}/rhs{k}/{nm} derivatives are identically zero", FN_RHS, H, z3.And(*goals), structural=True)
+                Fin = yin.F9.reshape(3, 3)
+                prove_entries(run, f"{t}/rhs{k}/dF == L @ F still", FN_RHS, H, block(out, 0), S._matmul(h.Lm, Fin).flatten())
+            for k, o in enumerate(p.oblig):
+                # divisions by Sigma symbols are the callees' business (extract_vars: A-LSODA mass > 0; apply_gbs: S >= 1), proved in gbslib
+                if o.name == "div_nonzero" and not any(nm.startswith("SUM") for nm in consts_of(o.goal)):
+                    run.prove(f"{t}/safety.{o.name}#{k}", FN_RHS, path_hyps(ex, p)[: len(ex.ctx.hyps)] + list(o.pc) + list(p.lazy) + [G >= 0, G < h.n.z], o.goal, structural=True, kind="safety")
+
+
+@guarded
+def rhs_safety(run):
+    """The right-hand side never divides by zero / leaves its domain, for generic, rigid-rotation and zero velocity gradients
+    (finite snapshots need a finite right-hand side)."""
+    for label, kw in (("generic-L", dict(L_kind="sym")), ("rigid-rotation", dict(L_kind="skew")), ("zero-L", dict(L_kind="zero"))):
+        for regime in (4, 6):
+            h, ex = explore(run, f"rhs-safety/{label}/regime{regime}", assemblage=(0,), regime=regime, steps_choices=(1,), **kw)
+            if ex is None:
+                continue
+            for pi, p in enumerate(ex.paths):
+                tr = p.value
+                t = f"rhs-safety/{label}/regime{regime}/path{pi}"
+                base = list(ex.ctx.hyps) + [G >= 0, G < h.n.z]
+                if tr.exc is not None:
+                    run.prove(f"{t}/does not raise", FN, base + list(p.pc), z3.BoolVal(False), structural=True, detail=f"raised {type(tr.exc).__name__}: {tr.exc}")
+                    continue
+                for k, o in enumerate(p.oblig):
+                    if any(nm.startswith("SUM") for nm in consts_of(o.goal)):
+                        continue  # sums: callee contracts (gbslib)
+                    run.prove(f"{t}/safety.{o.name}#{k}", FN_RHS, base + list(o.pc) + list(p.lazy), o.goal, structural=True, kind="safety", detail=f"{o.meta.get('what', o.name)}: {E.brief(o.goal, 140)}")
